@@ -1,5 +1,6 @@
 import Libp2pModel.Proofs.C26Cfg
 import Libp2pModel.Proofs.C26Keys2
+import Libp2pModel.Proofs.C26ClosePending
 import Libp2pModel.Common.Machine
 /-!
 # C26 — Mplex enforces its substream and buffer limits without losing data: property theorems
@@ -174,6 +175,30 @@ theorem entries_persist (m : MState) (op : Op) (hst : (step m op).1.s.status = .
     ((step m op).1.s.get j).isSome = true :=
   (step_keeps_entries m op hst).2 j hj h
 
+/-- **A pending close is a no-op.**  When `poll_close_stream(id)` returns `Pending` (the sink is at
+its high-water mark over a stalled connection), every entry of the substream table — state, receive
+buffer, histories; of `id` and of every other substream — is exactly what it was, and so are the
+pending queue, the blocking stream, the inbound queue, everything emitted, the status and the
+inbound-stream buffer.  (The Rust code takes the entry out of the map and re-inserts it with its
+buffer on `Pending`; a variant that drops the moved-out buffer breaks exactly this.) -/
+theorem close_pending_noop (s : State) (id : Sid) (h : (pollCloseStream s id).2 = .pending) :
+    (∀ j, (pollCloseStream s id).1.get j = s.get j) ∧
+    (pollCloseStream s id).1.pendQ = s.pendQ ∧ (pollCloseStream s id).1.blocking = s.blocking ∧
+    (pollCloseStream s id).1.inq = s.inq ∧ (pollCloseStream s id).1.emitted = s.emitted ∧
+    (pollCloseStream s id).1.status = s.status ∧ (pollCloseStream s id).1.openQ = s.openQ :=
+  close_pending_frame s id h
+
+/-- **Closing never drops a buffered frame**, whatever `poll_close_stream` returns (`Pending`, `Ok`,
+on `Open` or `RecvClosed` substreams, on the blocking substream or any other): unless the connection
+fails, every substream keeps its receive buffer, its received and delivered histories and its
+accepted writes; with `recv_fifo` (received = delivered ++ buffered in every reachable state) the
+buffered frames are still handed to the reader afterwards (`reset_reads_buffer`). -/
+theorem close_no_frame_dropped (s : State) (id : Sid)
+    (hne : ∀ k, (pollCloseStream s id).2 ≠ .ready (.error k)) (j : Sid) (x : Sub) (hx : s.get j = some x) :
+    ∃ x', (pollCloseStream s id).1.get j = some x' ∧ x'.buf = x.buf ∧ x'.rx = x.rx ∧ x'.dl = x.dl ∧
+      x'.acc = x.acc :=
+  close_keeps_buffers s id hne j x hx
+
 /-! ### the defect fixed by `findings/C26-reset-removes-substream.fix.diff` -/
 
 /-- Pre-fix `on_reset`: with `max_substreams = 1` and the single substream `0/receiver` already
@@ -222,4 +247,6 @@ end C26
 #print axioms C26.buffer_assert_holds
 #print axioms C26.drop_no_underflow
 #print axioms C26.entries_persist
+#print axioms C26.close_pending_noop
+#print axioms C26.close_no_frame_dropped
 #print axioms C26.reset_removes_substream_buggy_counterexample
